@@ -280,31 +280,100 @@ def exactly_once_rule(ctx, rid):
     return rr
 
 
+def _core_names(ctx, core0):
+    """Local names of combo_runner_core by role (not by spelling): the argument-name tuples, the value tuples, the
+    per-argument union of case values, the concatenated names and the coordinate lists of the full grid."""
+    N = {}
+    for n in walk_shallow(core0.node):
+        if isinstance(n, ast.Assign) and isinstance(n.targets[0], ast.Tuple) and len(n.targets[0].elts) == 2 and isinstance(n.value, ast.Call) and norm(n.value.func) == "zip" \
+                and len(n.value.args) == 1 and isinstance(n.value.args[0], ast.Starred) and norm(n.value.args[0].value) == "combos":
+            N["combo_args"], N["combo_values"] = (norm(e) for e in n.targets[0].elts)
+    need("combo_args" in N, "anchor lost: <names>, <values> = zip(*combos) in combo_runner_core")
+    # the normalisation of `cases`: in the no-cases arm the case names are (), the case values ((),) and the union {}
+    for n in walk_shallow(core0.node):
+        if isinstance(n, ast.If) and norm(n.test) == "cases" and n.orelse:
+            for st in n.orelse:
+                if isinstance(st, ast.Assign) and isinstance(st.targets[0], ast.Name):
+                    v = norm(st.value)
+                    t = st.targets[0].id
+                    if v == "((),)":
+                        N["case_values"] = t
+                    elif v in ("{}", "dict()"):
+                        N["case_coords"] = t
+                    elif v == "()" and t != "cases":
+                        N["case_args"] = t
+    need({"case_values", "case_coords", "case_args"} <= set(N), "anchor lost: the no-cases normalisation (names (), values ((),), union {}) in combo_runner_core")
+    fa = [n.targets[0].id for n in walk_shallow(core0.node) if isinstance(n, ast.Assign) and isinstance(n.targets[0], ast.Name) and isinstance(n.value, ast.BinOp) and isinstance(n.value.op, ast.Add)
+          and {norm(n.value.left), norm(n.value.right)} == {N["case_args"], N["combo_args"]}]
+    need(len(fa) == 1, "idiom changed: the concatenated argument names in combo_runner_core")
+    N["fn_args"] = fa[0]
+    grid = [(n.targets[0].id, n.value) for n in walk_shallow(core0.node) if isinstance(n, ast.Assign) and isinstance(n.targets[0], ast.Name) and isinstance(n.value, ast.BinOp) and isinstance(n.value.op, ast.Add)
+            and N["combo_values"] in (norm(n.value.left), norm(n.value.right)) and n.targets[0].id != N["fn_args"] and not any(isinstance(p_, ast.For) for p_ in _anc(n))]
+    need(len(grid) == 1, "idiom changed: the coordinate lists of the full grid (%s)" % [norm(v) for _, v in grid])
+    N["grid"], N["grid_expr"] = grid[0]
+    return N
+
+
+def _anc(n):
+    p = getattr(n, "_parent", None)
+    while p is not None:
+        yield p
+        p = getattr(p, "_parent", None)
+
+
 def settings_construction_rule(ctx, rid):
     """C01.R3: how each kwargs dict and location is built."""
+    from ..pathcond import canon
     rr = ctx.rule(rid, "settings construction: lock-step appends, kwargs = names x location + constants, [case, combo] order everywhere", floor=5)
     core0 = ctx.prog.need_func(CORE)
     core = core0
-    def _has_appends(fn):
-        ks = set()
+
+    def _append_recvs(fn):
+        """receivers of `.append` statements that sit directly in a loop body, per loop"""
+        by_loop = {}
         for n in walk_shallow(fn.node):
-            if isinstance(n, ast.Expr) and isinstance(n.value, ast.Call) and isinstance(n.value.func, ast.Attribute) and n.value.func.attr == "append":
-                ks.add(path_key(n.value.func.value))
-        return {"locs", "settings"} <= ks
-    if not _has_appends(core0):
+            if isinstance(n, ast.Expr) and isinstance(n.value, ast.Call) and isinstance(n.value.func, ast.Attribute) and n.value.func.attr == "append" and isinstance(n.value.func.value, ast.Name) and len(n.value.args) == 1:
+                p_ = getattr(n, "_parent", None)
+                q_ = p_
+                while q_ is not None and not isinstance(q_, ast.For) and q_ is not fn.node:
+                    q_ = getattr(q_, "_parent", None)
+                if isinstance(q_, ast.For) and isinstance(getattr(q_, "_parent", None), ast.For):
+                    by_loop.setdefault(id(q_), (q_, []))[1].append(n)
+        return by_loop
+
+    def _pick(fn):
+        for q_, lst in _append_recvs(fn).values():
+            if len({n.value.func.value.id for n in lst}) >= 2:
+                return q_, lst
+        return None
+    picked = _pick(core0)
+    if picked is None:
         for fn in ctx.res.slice([core0]):
-            if fn.module is core0.module and fn is not core0 and _has_appends(fn):
-                core = fn
+            if fn.module is core0.module and fn is not core0 and _pick(fn) is not None:
+                core, picked = fn, _pick(fn)
+    need(picked is not None, "idiom changed: locs / settings appends in combo_runner_core")
     ctx.touch(core)
     g = build_cfg(core.node)
-    # the two appends in one innermost loop body, unconditional
-    apps = {}
+    loop, app_stmts = picked
+    N = _core_names(ctx, core0)
+    # which of the appended lists holds the keyword dictionaries?  the one whose appended value is built by dict(...) / a dict display / .update
+    def _is_kwargs(app):
+        v = app.value.args[0]
+        if isinstance(v, (ast.Dict,)) or (isinstance(v, ast.Call) and norm(v.func) == "dict"):
+            return True
+        if isinstance(v, ast.Name):
+            for st in loop.body:
+                if isinstance(st, ast.Assign) and any(norm(t) == v.id for t in st.targets) and (isinstance(st.value, ast.Dict) or (isinstance(st.value, ast.Call) and norm(st.value.func) == "dict")):
+                    return True
+        return False
+    apps = {"locs": [a_ for a_ in app_stmts if not _is_kwargs(a_)], "settings": [a_ for a_ in app_stmts if _is_kwargs(a_)]}
+    recv = {k: {a_.value.func.value.id for a_ in v} for k, v in apps.items()}
+    need(all(len(v) == 1 for v in recv.values()), "idiom changed: locs / settings appends in combo_runner_core")
+    N["locs"], N["settings"] = recv["locs"].pop(), recv["settings"].pop()
+    # appends to the same lists elsewhere in the function (conditional / another loop)
     for n in walk_shallow(core.node):
-        if isinstance(n, ast.Expr) and isinstance(n.value, ast.Call) and isinstance(n.value.func, ast.Attribute) and n.value.func.attr == "append":
-            k = path_key(n.value.func.value)
-            if k in ("locs", "settings"):
-                apps.setdefault(k, []).append(n)
-    need(set(apps) == {"locs", "settings"}, "idiom changed: locs / settings appends in combo_runner_core")
+        if isinstance(n, ast.Expr) and isinstance(n.value, ast.Call) and isinstance(n.value.func, ast.Attribute) and n.value.func.attr == "append" and norm(n.value.func.value) in (N["locs"], N["settings"]) and n not in app_stmts:
+            apps["locs" if norm(n.value.func.value) == N["locs"] else "settings"].append(n)
     if len(apps["locs"]) != 1 or len(apps["settings"]) != 1:
         rr.bad(ctx.finding(rid, core, (apps["locs"] + apps["settings"])[-1], "locations and settings are appended %d / %d times per iteration" % (len(apps["locs"]), len(apps["settings"])), construct="append-count"), "one append each")
         return rr
@@ -319,14 +388,18 @@ def settings_construction_rule(ctx, rid):
     # enclosing loop variables and what they iterate
     loopvars = {}
     p = loop
+    outer_iter = None
     while isinstance(p, ast.For):
         for nm in names_in(p.target):
             loopvars[nm] = p.iter
+        outer_iter = p.iter
         p = getattr(p, "_parent", None)
+    need(N["case_values"] in names_in(outer_iter), "idiom changed: settings nest iterates over %s" % norm(outer_iter))
     for nm, it in loopvars.items():
-        extra = names_in(it) - {"cases", "case_values", "combo_values", "itertools", "zip", "enumerate"}
+        extra = names_in(it) - {"cases", N["case_values"], N["combo_values"], "itertools", "zip", "enumerate"}
         if extra:
             raise AnalysisError("idiom changed: settings nest iterates over %s" % norm(it))
+    cvdefs = [v for _, v in (assignments_to(core0, N["case_values"]) + (assignments_to(core, N["case_values"], g) if core is not core0 else [])) if v is not None]
 
     def expand(e, depth=0):
         """names feeding expression e, following assignments in the loop body"""
@@ -344,7 +417,7 @@ def settings_construction_rule(ctx, rid):
     for st in kstmts:
         srcs |= expand(st)
     srcs -= {kw_name, "dict", "zip"}
-    allowed = {"fn_args", "case_args", "combo_args", "constants"} | set(loopvars)
+    allowed = {N["fn_args"], N["case_args"], N["combo_args"], "constants"} | set(loopvars)
     extra = srcs - allowed
     lits = [d for st in kstmts for d in ast.walk(st) if isinstance(d, ast.Dict) and any(k is not None for k in d.keys)]
     if extra or lits:
@@ -352,12 +425,12 @@ def settings_construction_rule(ctx, rid):
                            % (sorted(extra) or "a literal entry"), construct="kwargs-extra-source"), "kwargs sources")
     elif "constants" not in srcs:
         rr.bad(ctx.finding(rid, core, kstmts[0] if kstmts else sa, "the constants are not added to the keyword arguments of each setting", construct="kwargs-no-constants"), "kwargs constants")
-    elif not (srcs & {"fn_args", "combo_args"}) or not (set(loopvars) & srcs):
+    elif not (srcs & {N["fn_args"], N["combo_args"]}) or not (set(loopvars) & srcs):
         rr.bad(ctx.finding(rid, core, kstmts[0] if kstmts else sa, "the keyword arguments are not built from the argument names and the current location (sources: %s)" % sorted(srcs), construct="kwargs-no-location"), "kwargs location")
     else:
         rr.ok("kwargs sources are exactly argument names, the current location and the constants: %s" % sorted(srcs))
     # name <-> value pairings inside the body
-    roles = {"fn_args": "all", "case_args": "case", "combo_args": "combo"}
+    roles = {N["fn_args"]: "all", N["case_args"]: "case", N["combo_args"]: "combo"}
 
     def role_of_values(e):
         ex = e
@@ -369,10 +442,10 @@ def settings_construction_rule(ctx, rid):
             l, r = role_of_values(ex.left), role_of_values(ex.right)
             return "all" if (l, r) == ("case", "combo") else "swapped" if (l, r) == ("combo", "case") else "?"
         if isinstance(ex, ast.Name) and ex.id in loopvars:
-            it = norm(loopvars[ex.id])
-            if "product" in it and "combo_values" in it:
+            it = loopvars[ex.id]
+            if "product" in norm(it) and N["combo_values"] in names_in(it):
                 return "combo"
-            if "case_values" in it:
+            if N["case_values"] in names_in(it):
                 return "case"
         return "?"
     for st in body:
@@ -381,7 +454,7 @@ def settings_construction_rule(ctx, rid):
                 want_r = roles[norm(z.args[0])]
                 got_r = role_of_values(z.args[1])
                 if got_r != want_r:
-                    rr.bad(ctx.finding(rid, core, z, "`%s` pairs the %s argument names with %s values: arguments receive another argument's value" % (norm(z), want_r, got_r), construct="names-values-roles " + norm(z)), "zip roles")
+                    rr.bad(ctx.finding(rid, core, z, "`%s` pairs the %s argument names with %s values: arguments receive another argument's value" % (norm(z), want_r, got_r), construct="names-values-roles " + want_r), "zip roles")
                 else:
                     rr.ok("`%s` pairs %s names with %s values" % (norm(z), want_r, got_r))
     lr = role_of_values(la.value.args[0])
@@ -389,23 +462,28 @@ def settings_construction_rule(ctx, rid):
         rr.bad(ctx.finding(rid, core, la, "the location appended for a setting is not case part + combo part (%s)" % norm(la.value.args[0]), construct="loc-shape"), "loc shape")
     else:
         rr.ok("location = case part + combo part")
-    # [case, combo] concatenation order
-    want = {"fn_args": ("case_args", "combo_args"), "all_combo_values": ("combos_cases", "combo_values")}
-    for tgt, (l, r) in want.items():
-        ds = [v for _, v in assignments_to(core, tgt, g) if v is not None] or [v for _, v in assignments_to(core0, tgt) if v is not None]
-        if len(ds) != 1 or not (isinstance(ds[0], ast.BinOp) and isinstance(ds[0].op, ast.Add)):
-            raise AnalysisError("idiom changed: %s is not a single concatenation (%s)" % (tgt, [norm(d) for d in ds]))
-        got = (norm(ds[0].left), norm(ds[0].right))
-        if got != (l, r):
-            rr.bad(ctx.finding(rid, core, ds[0], "`%s = %s` concatenates in the order %s; names, locations and coordinate lists must all be [case part, combo part]" % (tgt, norm(ds[0]), got), construct="concat-order " + tgt), "concat %s" % tgt)
-        else:
-            rr.ok("%s = %s + %s (case part first)" % (tgt, l, r))
+    # [case, combo] concatenation order: the argument names, and the coordinate lists of the full grid
+    d_fa = [v for _, v in assignments_to(core0, N["fn_args"]) if v is not None]
+    need(len(d_fa) == 1, "idiom changed: %s is not a single concatenation" % N["fn_args"])
+    got = (norm(d_fa[0].left), norm(d_fa[0].right))
+    if got != (N["case_args"], N["combo_args"]):
+        rr.bad(ctx.finding(rid, core, d_fa[0], "`%s = %s` concatenates in the order %s; names, locations and coordinate lists must all be [case part, combo part]" % (N["fn_args"], norm(d_fa[0]), got), construct="concat-order fn_args"), "concat fn_args")
+    else:
+        rr.ok("%s = %s + %s (case part first)" % (N["fn_args"], got[0], got[1]))
+    gt, gv = N["grid"], N["grid_expr"]
+    other = gv.left if norm(gv.right) == N["combo_values"] else gv.right
+    od = single_def(core0, other.id) if isinstance(other, ast.Name) else None
+    need(od is not None and N["case_coords"] in norm(od[1]) or (isinstance(other, ast.Call) and N["case_coords"] in norm(other)), "idiom changed: the case part of the full grid `%s`" % norm(other))
+    if norm(gv.right) == N["combo_values"]:
+        rr.ok("%s = %s (case part first)" % (gt, norm(gv)))
+    else:
+        rr.bad(ctx.finding(rid, core, gv, "`%s = %s` concatenates in the order (combo, case); names, locations and coordinate lists must all be [case part, combo part]" % (gt, norm(gv)), construct="concat-order all_combo_values"), "concat grid")
     # case values are selected by name in the order of case_args (dict cases may be spelled in any key order)
-    cv = [v for _, v in (assignments_to(core0, "case_values") + (assignments_to(core, "case_values", g) if core is not core0 else [])) if v is not None and not isinstance(v, ast.Tuple) or (v is not None and isinstance(v, ast.Tuple) and v.elts and not isinstance(v.elts[0], ast.Tuple))]
-    cvn = [norm(v) for v in cv]
-    pat = "tuple((tuple((c[a] for a in case_args)) for c in cases))"
-    if any(x == pat for x in cvn):
-        rr.ok("case values are looked up by name in case_args order: %s" % pat)
+    cv = [v for v in cvdefs if not isinstance(v, ast.Tuple) or (isinstance(v, ast.Tuple) and v.elts and not isinstance(v.elts[0], ast.Tuple))]
+    cvn = [canon(v) for v in cv]
+    pats = {canon(ast.parse(t % N["case_args"], mode="eval").body) for t in ("tuple((tuple((c[a] for a in %s)) for c in cases))", "tuple([tuple([c[a] for a in %s]) for c in cases])", "[tuple((c[a] for a in %s)) for c in cases]")}
+    if any(x in pats for x in cvn):
+        rr.ok("case values are looked up by name in case_args order")
     else:
         nd = cv[0] if cv else core.node
         if any(".values()" in x for x in cvn):
@@ -684,6 +762,7 @@ def placeholder_rule(ctx, rid):
     labels exported are the very values used for the layout."""
     rr = ctx.rule(rid, "cases: union coordinates + placeholder from an existing result; exported labels = layout values", floor=5)
     core = ctx.prog.need_func(CORE)
+    N = _core_names(ctx, core)
     pr = core.nested.get("process_results")
     if pr is None:
         cands = [fn for fn in ctx.res.slice([core]) if fn.module is core.module and fn is not core and any(nm == CR + "._unflatten" for _, _, nm in all_calls(ctx, fn))]
@@ -700,7 +779,7 @@ def placeholder_rule(ctx, rid):
     n, c = uf[0]
     a1 = arg(c, 1, "all_combo_values")
     a2 = arg(c, 2, "all_nan")
-    if a1 is None or norm(a1) != "all_combo_values":
+    if a1 is None or norm(a1) != N["grid"]:
         rr.bad(ctx.finding(rid, pr, c, "with cases the nested result is laid out over `%s`, not over the union coordinates `all_combo_values`: slots of unrequested combinations are missing or misplaced" % (norm(a1) if a1 else None), construct="unflatten-coords"), "union coords")
     else:
         rr.ok("cases: _unflatten(..., all_combo_values, placeholder)")
@@ -717,7 +796,7 @@ def placeholder_rule(ctx, rid):
     # no cases: full grid, no placeholder
     fl2 = Flow(g, {"flat": FALSE, "cases": FALSY, "has_cases": FALSE}).run()
     uf2 = [(n, c) for n, c, nm in all_calls(ctx, pr, g) if nm == CR + "._unflatten" and n.id in fl2.visited]
-    if len(uf2) == 1 and norm(arg(uf2[0][1], 1)) == "combo_values":
+    if len(uf2) == 1 and norm(arg(uf2[0][1], 1)) == N["combo_values"]:
         rr.ok("no cases: _unflatten(..., combo_values)")
     else:
         rr.bad(ctx.finding(rid, pr, pr.node, "without cases the result is not laid out over the given combo values", construct="unflatten-grid"), "grid layout")
@@ -725,25 +804,32 @@ def placeholder_rule(ctx, rid):
     g0 = build_cfg(core.node)
     st = [nd for nd in g0.nodes if nd.kind == "stmt" and isinstance(nd.ast, ast.Assign) and norm(nd.ast.targets[0]) == "info['all_combo_values']"]
     st2 = [nd for nd in g0.nodes if nd.kind == "stmt" and isinstance(nd.ast, ast.Assign) and norm(nd.ast.targets[0]) == "info['fn_args']"]
-    if len(st) == 1 and norm(st[0].ast.value) == "all_combo_values" and len(st2) == 1 and norm(st2[0].ast.value) == "fn_args" \
-            and len(assignments_to(core, "all_combo_values", g0)) == 1:
+    if len(st) == 1 and norm(st[0].ast.value) == N["grid"] and len(st2) == 1 and norm(st2[0].ast.value) == N["fn_args"] \
+            and len(assignments_to(core, N["grid"], g0)) == 1:
         rr.ok("info['all_combo_values'] / info['fn_args'] are the single definitions used for the layout")
     else:
         rr.bad(ctx.finding(rid, core, st[0].ast if st else core.node, "the coordinate labels exported in info are not the values the nested layout was built from", construct="info-labels"), "info labels")
     # union accumulation: unconditional add, sorted with fallback
-    adds = [nd for nd in g0.nodes if nd.kind == "stmt" and norm(nd.ast).startswith("case_coords[") and ".add(" in norm(nd.ast)]
+    adds = [nd for nd in g0.nodes if nd.kind == "stmt" and norm(nd.ast).startswith(N["case_coords"] + "[") and ".add(" in norm(nd.ast)]
     if not adds:
         for fn in ctx.res.slice([core]):
             if fn.module is core.module and fn is not core:
                 gg = build_cfg(fn.node)
-                adds = adds or [nd for nd in gg.nodes if nd.kind == "stmt" and norm(nd.ast).startswith("case_coords[") and ".add(" in norm(nd.ast)]
-    if len(adds) == 1 and isinstance(getattr(adds[0].ast, "_parent", None), ast.For) and norm(getattr(adds[0].ast, "_parent").iter) == "zip(case_args, case_params)":
+                adds = adds or [nd for nd in gg.nodes if nd.kind == "stmt" and norm(nd.ast).startswith(N["case_coords"] + "[") and ".add(" in norm(nd.ast)]
+    def _uncond_add(nd):
+        lp = getattr(nd.ast, "_parent", None)
+        if not isinstance(lp, ast.For) or not (isinstance(lp.iter, ast.Call) and norm(lp.iter.func) == "zip" and len(lp.iter.args) == 2 and norm(lp.iter.args[0]) == N["case_args"]):
+            return False
+        outer_ = getattr(lp, "_parent", None)
+        return isinstance(outer_, ast.For) and norm(lp.iter.args[1]) == norm(outer_.target) and N["case_values"] in names_in(outer_.iter)
+    if len(adds) == 1 and _uncond_add(adds[0]):
         rr.ok("every case value is added to its argument's union unconditionally")
     else:
         rr.bad(ctx.finding(rid, core, adds[0].ast if adds else core.node, "case values are not all accumulated into the per-argument union (conditional or missing add)", construct="union-accumulate"), "union accumulate")
-    srt = [nd for nd in g0.nodes if nd.kind == "stmt" and isinstance(nd.ast, ast.Assign) and norm(nd.ast.targets[0]) == "case_coords[arg]"]
+    srt = [nd for nd in g0.nodes if nd.kind == "stmt" and isinstance(nd.ast, ast.Assign) and isinstance(nd.ast.targets[0], ast.Subscript) and norm(nd.ast.targets[0].value) == N["case_coords"] and isinstance(nd.ast.targets[0].slice, ast.Name)]
+    CCA = norm(srt[0].ast.targets[0]) if srt else "?"
     vals = sorted(norm(x.ast.value) for x in srt)
-    if vals == ["list(case_coords[arg])", "sorted(case_coords[arg])"]:
+    if vals == ["list(%s)" % CCA, "sorted(%s)" % CCA]:
         rr.ok("union coordinates sorted, with the unsortable fallback")
     elif not srt:
         # the ordering lives in a helper: look for sorted(<x>) with a list(<x>) fallback in a function the core calls
@@ -759,7 +845,7 @@ def placeholder_rule(ctx, rid):
         else:
             raise AnalysisError("idiom changed: ordering of the per-argument union of case values")
     elif any("reverse=True" in v or "[::-1]" in v or "reversed(" in v for v in vals) or not any(v.startswith("sorted(") for v in vals) or \
-            (len(vals) == 2 and any(v.startswith("sorted(") for v in vals) and any("case_coords[arg]" not in v for v in vals)):
+            (len(vals) == 2 and any(v.startswith("sorted(") for v in vals) and any(CCA not in v for v in vals)):
         rr.bad(ctx.finding(rid, core, srt[0].ast if srt else core.node, "the per-argument union of case values is not `sorted(...)` with a list() fallback (found %s)" % vals, construct="union-sorted"), "union sorted")
     else:
         raise AnalysisError("idiom changed: ordering of the per-argument union of case values: %s" % vals)
@@ -803,7 +889,18 @@ def dispatch_rule(ctx, rid):
     g = build_cfg(nlr.node)
     tests = [t for t in g.nodes if t.kind == "test"]
     strt = [t for t in tests if "bool" in norm(t.ast) and "str" in norm(t.ast) and "isinstance" in norm(t.ast)]
-    gen = [n for n in g.nodes if n.kind == "stmt" and "for x in res" in n.text()]
+    if not strt:
+        # two separate tests (str, then bool) or a hoisted flag: any isinstance test naming str
+        strt = [t for t in tests if "isinstance" in norm(t.ast) and "str" in norm(t.ast)]
+    RES = nlr.positional[0]
+    from ..cfg import node_exprs
+    def _iterates_res(n):
+        for e in node_exprs(n):
+            for x in ast.walk(e):
+                if isinstance(x, ast.comprehension) and norm(x.iter) == RES:
+                    return True
+        return n.kind == "for" and norm(n.ast.iter) == RES
+    gen = [n for n in g.nodes if n.kind in ("stmt", "for") and _iterates_res(n)]
     if strt and gen and all(g.dominates(strt[0].id, x.id) for x in gen):
         rets = [n for n in g.nodes if n.kind == "stmt" and isinstance(n.ast, ast.Return) and norm(n.ast.value) == "None"]
         if rets and any(b == rets[0].id or rets[0].id in g.reachable(start=b) for b, l in g.succ[strt[0].id] if l == "t"):
@@ -815,8 +912,10 @@ def dispatch_rule(ctx, rid):
     ins = prog.need_func(CR + ".infer_shape")
     ctx.touch(ins)
     gi = build_cfg(ins.node)
-    st = [t for t in gi.nodes if t.kind == "test" and norm(t.ast) == "isinstance(x, str)"]
-    ln = [n for n in gi.nodes if "len(x)" in n.text()]
+    XP = ins.positional[0]
+    st = [t for t in gi.nodes if t.kind == "test" and norm(t.ast) in ("isinstance(%s, str)" % XP, "isinstance(%s, (str,))" % XP, "isinstance(%s, (str, bytes))" % XP)]
+    ln = [n for n in gi.nodes if "len(%s)" % XP in n.text()]
+    need(ln, "anchor lost: len(%s) in infer_shape" % XP)
     if st and ln and gi.dominates(st[0].id, ln[0].id):
         rr.ok("infer_shape: str is a scalar (checked before len())")
     else:
@@ -872,22 +971,45 @@ def dims_rule(ctx, rid):
     """C03.R3: variable dims = swept arguments (in nesting order) followed by
     the variable's declared internal dims; coords from the same combos."""
     rr = ctx.rule(rid, "Dataset construction: dims = fn_args + var_dims[name]; coords from the same combos; data paired with its own name", floor=4)
+    from ..pathcond import canon
     f = ctx.prog.need_func(CR + ".results_to_ds")
     ctx.touch(f)
-    d = single_def(f, "fn_args")
-    if d is not None and norm(d[1]) in ("tuple((x for x, _ in combos))", "tuple(x for x, _ in combos)"):
-        rr.ok("fn_args = names of `combos` in order")
+    dsc = [c for c in walk_shallow(f.node) if isinstance(c, ast.Call) and norm(c.func) in ("xr.Dataset", "xarray.Dataset") and c.keywords]
+    need(len(dsc) == 1, "idiom changed: xr.Dataset(...) construction in results_to_ds")
+    c = dsc[0]
+    coords = arg(c, None, "coords")
+    dv = arg(c, None, "data_vars")
+    if isinstance(dv, ast.Name):
+        dd = [v for _, v in assignments_to(f, dv.id) if v is not None]
+        dv = dd[0] if len(dd) == 1 else dv
+    need(isinstance(dv, ast.DictComp) and len(dv.generators) == 1, "idiom changed: data_vars is not a single dict comprehension")
+    gen = dv.generators[0]
+    need(isinstance(gen.iter, ast.Call) and norm(gen.iter.func) == "zip" and len(gen.iter.args) == 2 and isinstance(gen.target, ast.Tuple) and len(gen.target.elts) == 2 and not gen.ifs, "idiom changed: data_vars comprehension `%s`" % norm(dv)[:80])
+    pos_names = [i for i, a_ in enumerate(gen.iter.args) if norm(a_) == "var_names"]
+    need(len(pos_names) == 1, "idiom changed: data_vars does not iterate var_names (%s)" % norm(gen.iter))
+    NAME = norm(gen.target.elts[pos_names[0]])
+    DATA = norm(gen.target.elts[1 - pos_names[0]])
+    data_src = norm(gen.iter.args[1 - pos_names[0]])
+    # the dimension names of the swept arguments: what is concatenated with var_dims[...]
+    FN = None
+    if isinstance(dv.value, ast.Tuple) and len(dv.value.elts) == 2 and isinstance(dv.value.elts[0], ast.BinOp) and isinstance(dv.value.elts[0].op, ast.Add):
+        for side in (dv.value.elts[0].left, dv.value.elts[0].right):
+            if isinstance(side, ast.Name):
+                FN = side.id
+    if FN is None:
+        cands_ = [n.targets[0].id for n in walk_shallow(f.node) if isinstance(n, ast.Assign) and isinstance(n.targets[0], ast.Name) and "combos" in names_in(n.value) and isinstance(n.value, ast.Call) and norm(n.value.func) in ("tuple", "list")]
+        need(len(cands_) == 1, "idiom changed: the swept argument names in results_to_ds")
+        FN = cands_[0]
+    d = single_def(f, FN)
+    pats = {canon(ast.parse(t, mode="eval").body) for t in ("tuple(x for x, _ in combos)", "tuple([x for x, _ in combos])", "[x for x, _ in combos]", "tuple(dict(combos))", "tuple(dict(combos).keys())")}
+    if d is not None and canon(d[1]) in pats:
+        rr.ok("%s = names of `combos` in order" % FN)
     elif d is not None and "combos" in names_in(d[1]) and any(w in norm(d[1]) for w in ("sorted(", "reversed(", "[::-1]", "set(")):
         rr.bad(ctx.finding(rid, f, d[1], "results_to_ds takes the dimension names from `combos` in another order than the nesting of the results (`%s`)" % norm(d[1]), construct="fn_args-from-combos"), "fn_args")
     elif d is not None and "combos" not in names_in(d[1]):
         rr.bad(ctx.finding(rid, f, d[1], "results_to_ds no longer takes the dimension names from `combos` (`%s`)" % norm(d[1]), construct="fn_args-from-combos"), "fn_args")
     else:
         raise AnalysisError("idiom changed: fn_args in results_to_ds (%s)" % (norm(d[1]) if d else "no single definition"))
-    dsc = [c for c in walk_shallow(f.node) if isinstance(c, ast.Call) and norm(c.func) in ("xr.Dataset", "xarray.Dataset") and c.keywords]
-    need(len(dsc) == 1, "idiom changed: xr.Dataset(...) construction in results_to_ds")
-    c = dsc[0]
-    coords = arg(c, None, "coords")
-    dv = arg(c, None, "data_vars")
     cn = set()
     if coords is not None:
         todo, seen = [coords], set()
@@ -910,36 +1032,60 @@ def dims_rule(ctx, rid):
         rr.bad(ctx.finding(rid, f, coords, "Dataset coordinates are not built from the swept combos: %s" % norm(coords), construct="coords"), "coords")
     else:
         raise AnalysisError("idiom changed: coords of the Dataset in results_to_ds")
-    if isinstance(dv, ast.Name):
-        dd = [v for _, v in assignments_to(f, dv.id) if v is not None]
-        dv = dd[0] if len(dd) == 1 else dv
-    if isinstance(dv, ast.DictComp) and len(dv.generators) == 1:
-        gen = dv.generators[0]
-        it_ok = norm(gen.iter) == "zip(results, var_names)" and norm(gen.target) == "(data, name)" and not gen.ifs
-        key_ok = norm(dv.key) == "name"
-        val_ok = isinstance(dv.value, ast.Tuple) and len(dv.value.elts) == 2 and norm(dv.value.elts[0]) == "fn_args + var_dims[name]" and "data" in names_in(dv.value.elts[1]) and "name" not in names_in(dv.value.elts[1])
-        if it_ok and key_ok and val_ok:
-            rr.ok("data_vars: name -> (fn_args + var_dims[name], data) over zip(results, var_names)")
-        else:
-            rr.bad(ctx.finding(rid, f, dv, "data variables are not `name: (fn_args + var_dims[name], data) for data, name in zip(results, var_names)`: dims out of order or data paired with another variable's name (%s)" % norm(dv)[:120],
-                               construct="data_vars"), "data_vars")
+    # data variables: name -> (swept names + the variable's own dims, its own data)
+    key_t = norm(dv.key)
+    need(isinstance(dv.value, ast.Tuple) and len(dv.value.elts) == 2, "idiom changed: data variable entry `%s`" % norm(dv.value)[:60])
+    dims_e, data_e = dv.value.elts
+    problems = []
+    if key_t != NAME:
+        problems.append("the key is `%s`, not the variable's name" % key_t)
+    if data_src != "results":
+        problems.append("the data iterates `%s`, not the results" % data_src)
+    if DATA not in names_in(data_e) or NAME in names_in(data_e):
+        problems.append("the data entry `%s` is not built from the variable's own data" % norm(data_e)[:40])
+    if isinstance(dims_e, ast.BinOp) and isinstance(dims_e.op, ast.Add):
+        l_, r_ = norm(dims_e.left), norm(dims_e.right)
+        if (l_, r_) != (FN, "var_dims[%s]" % NAME):
+            if r_ == FN or "var_dims[" in l_:
+                problems.append("the dims are `%s`: the variable's internal dimensions come before the swept arguments" % norm(dims_e))
+            elif "var_dims[" in r_ and r_ != "var_dims[%s]" % NAME:
+                problems.append("the internal dims are looked up with `%s`" % r_)
+            else:
+                raise AnalysisError("idiom changed: dims of a data variable `%s`" % norm(dims_e))
+    elif norm(dims_e) in (FN, "var_dims[%s]" % NAME):
+        problems.append("the dims are `%s` only" % norm(dims_e))
     else:
-        raise AnalysisError("idiom changed: data_vars is not a single dict comprehension")
+        raise AnalysisError("idiom changed: dims of a data variable `%s`" % norm(dims_e))
+    if problems:
+        rr.bad(ctx.finding(rid, f, dv, "data variables are not `name: (fn_args + var_dims[name], data) for data, name in zip(results, var_names)`: %s (%s)" % ("; ".join(problems), norm(dv)[:100]), construct="data_vars"), "data_vars")
+    else:
+        rr.ok("data_vars: name -> (fn_args + var_dims[name], data) over zip(results, var_names)")
     # constants: coordinate if a dimension, else attribute
     g = build_cfg(f.node)
-    t = [n for n in g.nodes if n.kind == "test" and norm(n.ast) == "k in ds.dims"]
+    loops = [n for n in walk_shallow(f.node) if isinstance(n, ast.For) and norm(n.iter) == "constants.items()" and isinstance(n.target, ast.Tuple) and len(n.target.elts) == 2]
+    need(len(loops) == 1, "idiom changed: the per-constant coordinate-or-attribute decision (`k in ds.dims`) is not in results_to_ds")
+    K, V = (norm(e) for e in loops[0].target.elts)
+    rets = [r_.value for r_ in walk_shallow(f.node) if isinstance(r_, ast.Return) and r_.value is not None]
+    need(rets and all(isinstance(r_, ast.Name) for r_ in rets) and len({r_.id for r_ in rets}) == 1, "idiom changed: results_to_ds returns %s" % [norm(r_) for r_ in rets])
+    DS = rets[0].id
+    t = [n for n in g.nodes if n.kind == "test" and norm(n.ast) == "%s in %s.dims" % (K, DS)]
     if len(t) == 1:
         tb = [b for b, l in g.succ[t[0].id] if l == "t"]
         fb = [b for b, l in g.succ[t[0].id] if l == "f"]
         tt = g.nodes[tb[0]].text() if tb else ""
-        ft = " ".join(g.nodes[x].text() for x in g.reachable(start=fb[0]) | {fb[0]} if g.nodes[x].kind == "stmt")[:400] if fb else ""
-        if tt == "ds.coords[k] = v" and "attrs[k] = v" in ft:
+        ft = " ".join(g.nodes[x].text() for x in g.reachable(start=fb[0], blocked_nodes=[t[0].id]) | {fb[0]} if g.nodes[x].kind == "stmt")[:400] if fb else ""
+        ttt = " ".join(g.nodes[x].text() for x in g.reachable(start=tb[0], blocked_nodes=[t[0].id]) | {tb[0]} if g.nodes[x].kind == "stmt")[:400] if tb else ""
+        if tt == "%s.coords[%s] = %s" % (DS, K, V) and "attrs[%s] = %s" % (K, V) in ft:
             rr.ok("constants: coordinate if it names a dimension, else attribute")
+        elif "attrs[%s] = %s" % (K, V) in ttt.split("%s.coords" % DS)[0] and "%s.coords[%s] = %s" % (DS, K, V) in ft:
+            rr.bad(ctx.finding(rid, f, t[0].ast, "constants that name a dimension go to attrs and the others to coordinates (branches swapped)", construct="constants-split"), "constants split")
+        elif tb and g.nodes[tb[0]].kind == "test" and "%s.coords[%s] = %s" % (DS, K, V) in ttt and "attrs[%s] = %s" % (K, V) in ft:
+            rr.bad(ctx.finding(rid, f, g.nodes[tb[0]].ast, "a constant that names a dimension is written to the coordinates only when `%s`: otherwise the dimension keeps another labelling than the constant's value" % norm(g.nodes[tb[0]].ast), construct="constants-split"), "constants split")
         else:
-            rr.bad(ctx.finding(rid, f, t[0].ast, "constants are not recorded as coordinate-if-dimension-else-attribute", construct="constants-split"), "constants split")
+            raise AnalysisError("idiom changed: the branches of the per-constant coordinate-or-attribute decision")
     else:
-        alt = [n for n in g.nodes if n.kind == "test" and isinstance(n.ast, ast.Compare) and len(n.ast.ops) == 1 and isinstance(n.ast.ops[0], ast.In) and norm(n.ast.left) == "k"
-               and any(g.nodes[b].kind == "stmt" and g.nodes[b].text().startswith("ds.coords[k]") for b, l in g.succ[n.id] if l == "t")]
+        alt = [n for n in g.nodes if n.kind == "test" and isinstance(n.ast, ast.Compare) and len(n.ast.ops) == 1 and isinstance(n.ast.ops[0], ast.In) and norm(n.ast.left) == K
+               and any(g.nodes[b].kind == "stmt" and g.nodes[b].text().startswith("%s.coords[%s]" % (DS, K)) for b, l in g.succ[n.id] if l == "t")]
         if alt:
             rr.bad(ctx.finding(rid, f, alt[0].ast, "a constant becomes a coordinate when `%s` instead of when it names a dimension of the dataset (`k in ds.dims`): for results that bring their own dimensions (var_names=None) the constant is written to attrs "
                                "and the dimension stays unlabelled" % norm(alt[0].ast), construct="constants-split"), "constants split")
